@@ -5,7 +5,7 @@
 // the LAST insertion:
 //   cache/hit-window-of-last-insert    get_entry answers from the cache iff offset <= smallest TTL of the reply inserted LAST
 //                                      (a refilled slot takes the new lifetime, not the first occupant's)
-//   cache/served-ttl-aged-exactly      every TTL served = TTL of the last reply - whole seconds elapsed, never wrapped
+//   cache/served-ttl-aged-exactly      every TTL served (answer, authority and additional section) = TTL of the last reply - whole seconds elapsed, never wrapped
 // plus long-lived entries (TTLs of 1 day, 2 days, 46 days) probed at ages around 65535 s, one day, two days and 46 days.
 // Child module of dns::cache, compiled only under cfg(test) in the scratch copy.
 use super::*;
@@ -101,6 +101,32 @@ async fn verif_cache_contracts() {
             if let Some(Ok(p)) = &got {
                 let ok = p.answer.len() == ttls.len() && p.answer.iter().zip(ttls.iter()).all(|(rr, t)| (*t as u64) >= off && rr.ttl as u64 == *t as u64 - off);
                 t_ttl.check(ok, || format!("TTLs {:?}, probe {} s after insertion: served TTLs {:?}", ttls, off, p.answer.iter().map(|r| r.ttl).collect::<Vec<_>>()));
+            }
+        }
+    }
+    // all three sections: the authority and additional records of a cached reply age exactly like its answers
+    let rr = |t: u32| RR { domain: name.clone(), class: CLASS_IN, rrtype: RR_A, ttl: t, rdata: RData::Other(vec![192, 0, 2, 1]) };
+    for (a, n, d) in [(3600u32, 1800u32, 300u32), (300, 3600, 1800), (1800, 300, 3600), (300, 300, 300)] {
+        for off in [0u64, 1, 120, 299, 301] {
+            let mut cache = Cache::new();
+            let mut r = reply(&name, &[a]);
+            if let Ok(p) = r.as_mut() { p.nameserver = vec![rr(n)]; p.additional = vec![rr(d), rr(d + 7)]; }
+            let t0 = Instant::now();
+            let expiry = handler.calculate_expiry(&r);
+            handler.insert_cache_entry(&mut cache, ck.clone(), &r, expiry);
+            let t1 = Instant::now();
+            if t1 - t0 >= Duration::from_millis(300) { continue; }
+            let now = t1 + Duration::from_secs(off);
+            let got = match std::panic::catch_unwind(std::panic::AssertUnwindSafe(|| CacheHandler::get_entry(&cache, &ck, now))) {
+                Ok(g) => g,
+                Err(_) => { t_ttl.check(false, || format!("TTLs answer {} authority {} additional {}, probe {} s after insertion: get_entry PANICKED", a, n, d, off)); continue; }
+            };
+            t_win.check(got.is_some() == (off < 300), || format!("TTLs answer {} authority {} additional {}, probe {} s after insertion: served from cache = {}", a, n, d, off, got.is_some()));
+            if let Some(Ok(p)) = &got {
+                let served: Vec<u32> = p.answer.iter().chain(p.nameserver.iter()).chain(p.additional.iter()).map(|r| r.ttl).collect();
+                let want: Vec<u32> = [a, n, d, d + 7].iter().map(|t| t - off as u32).collect();
+                t_ttl.check(p.answer.len() == 1 && p.nameserver.len() == 1 && p.additional.len() == 2 && served == want,
+                    || format!("TTLs answer {} authority {} additional {}/{}, probe {} s after insertion: served (answer, authority, additional) {:?}, expected {:?}", a, n, d, d + 7, off, served, want));
             }
         }
     }
